@@ -13,7 +13,19 @@ const (
 	trigIncDecUintptr       = "++/-- on a uintptr variable"
 	trigNegShiftCount       = "shift by a negative run-time count"
 	trigNegZeroArg          = "float -0 passed as a function argument"
+	trigIfaceAssign         = "plain assignment of a %, <<, >>, unary -, ^ or ! expression to a declared interface variable"
 )
+
+// ifaceAssignBroken: operators whose result, assigned with `i = e` to an interface variable
+// declared before, stops the function (F-C02-7). Found by the loop sites, whose interface
+// destination is declared outside the loop.
+func ifaceAssignBroken(op string) bool {
+	switch op {
+	case "rem", "shl", "shr", "neg", "not", "lnot", "nand", "nor":
+		return true
+	}
+	return strings.HasSuffix(op, " nand") || strings.HasSuffix(op, " nor")
+}
 
 func negCount(k *Case) bool { return isShiftOp[k.Op] && strings.HasPrefix(k.B, "-") }
 
@@ -21,6 +33,12 @@ func isNegZero(v string) bool { return strings.Contains(v, "Copysign(0, -1)") }
 
 // knownTrigger gives the root-cause trigger of a case, "" when none applies.
 func knownTrigger(k *Case) string {
+	if k.Site != nil {
+		if k.Ctx == "iface" && ifaceAssignBroken(k.Op) {
+			return trigIfaceAssign
+		}
+		return ""
+	}
 	switch {
 	case k.Cls == "float" && k.Op == "quo" && len(k.Form) == 2 && k.Form[1] != 'V' && k.BZ:
 		return trigFloatDivConstZero
@@ -44,7 +62,7 @@ func knownTrigger(k *Case) string {
 func excluded(k *Case) string {
 	switch knownTrigger(k) {
 	case trigFloatDivConstZero:
-		return "F-C02-1 " + k.T
+		return "" // F-C02-1 is repaired in /repo: back in the bulk programs
 	case trigUntypedShiftOperand:
 		if negCount(k) {
 			return "drop" // two findings at once: not run
@@ -54,7 +72,9 @@ func excluded(k *Case) string {
 		}
 		return "F-C02-2 " + k.Ctx + " " + k.Op
 	case trigIncDecUintptr:
-		return "F-C02-3 " + k.Op
+		return "" // F-C02-3 is repaired in /repo: back in the bulk programs
+	case trigIfaceAssign:
+		return "F-C02-7 " + k.Site.Fam
 	}
 	return ""
 }
@@ -67,6 +87,9 @@ func pinWanted(ex string, k *Case) bool {
 	}
 	// a deterministic sample (1 in 8) of the excluded cases, at most 40 per group
 	if strings.HasPrefix(ex, "F-C02-2") && hash64(k.Row, k.Form, k.Ctx)%8 != 0 {
+		return false
+	}
+	if strings.HasPrefix(ex, "F-C02-7") && hash64(k.Row, k.Form, k.Ctx)%4 != 0 {
 		return false
 	}
 	pinCount[ex]++
